@@ -805,8 +805,12 @@ def _lexer_rules(prog):
         st = n.ast
         if isinstance(st, ast.Expr) and isinstance(st.value, ast.Yield):
             y = st.value.value
-            guard = [fa for fa in facts if fa[0] == 'cmp' and fa[1] == '0' and fa[2] == '<' and fa[3].startswith('len(')]
-            branches[br].append(('YIELD', unparse(y), guard[-1][3] if guard else None))
+            from ..values import is_empty_fact
+            g = None
+            if isinstance(y, ast.Tuple) and len(y.elts) == 2 and isinstance(y.elts[0], ast.Name) \
+                    and const_str(y.elts[1]) in ('TOKEN', 'WS') and is_empty_fact(facts, y.elts[0].id, empty=False):
+                g = 'len(%s)' % y.elts[0].id
+            branches[br].append(('YIELD', unparse(y), g))
         elif isinstance(st, ast.Expr) and isinstance(st.value, ast.Call) and unparse(st.value.func).endswith('.write'):
             branches[br].append(('WRITE', unparse(st.value.func.value), unparse(st.value.args[0])))
         elif isinstance(st, ast.Assign) and isinstance(st.value, ast.Call) and unparse(st.value.func) == 'StringIO':
@@ -834,7 +838,11 @@ def _lexer_rules(prog):
     }
     for br in ('bracket', 'space', 'other'):
         got = [x for x in branches[br]]
-        ok = got == want[br]
+        ok = True if got == want[br] else None
+        if ok is None and all(x in want[br] for x in got) and len(got) < len(want[br]):
+            ok = False            # positive: a flush, a reset or the buffering step of the documented sequence is gone
+        if ok is None and sorted(map(str, got)) == sorted(map(str, want[br])):
+            ok = False            # same steps in another order (e.g. the character is buffered before the flush)
         obs.append(Ob('R-AUTOMATON/LEXER', f.fq, 'on a %s character the lexer flushes the other class (if non-empty), then %s'
                       % ({'bracket': 'bracket', 'space': 'whitespace', 'other': 'token'}[br],
                          'emits the bracket' if br == 'bracket' else 'buffers the character'), ok,
@@ -844,13 +852,19 @@ def _lexer_rules(prog):
     after = [n for n in cfg.eval_nodes() if n.kind == 'stmt' and not n.loops and isinstance(n.ast, ast.Expr)
              and isinstance(n.ast.value, ast.Yield) and cfg.dominates(W.id, n.id)]
     kinds = sorted(unparse(a.ast.value.value).split(', ')[-1].strip("')") for a in after)
-    guarded = all(any(fa[0] == 'cmp' and fa[1] == '0' and fa[2] == '<' for fa in [x[0] for x in facts_at(cfg, a.id)])
+    from ..values import is_empty_fact
+    guarded = all(isinstance(a.ast.value.value, ast.Tuple) and a.ast.value.value.elts
+                  and is_empty_fact([x[0] for x in facts_at(cfg, a.id)], unparse(a.ast.value.value.elts[0]), empty=False)
                   for a in after)
-    ok = kinds == ['TOKEN', 'WS'] and guarded
+    ok = True if (kinds == ['TOKEN', 'WS'] and guarded) else None
+    if ok is None and 'TOKEN' not in kinds and not any(isinstance(x, (ast.Yield, ast.YieldFrom)) and not cfg.nodes[cfg.node_of(x)].loops
+                                                       for x in walk_own(f.node)):
+        ok = False
     obs.append(Ob('R-AUTOMATON/A3', f.fq, 'at end of input the lexer hands out what is still buffered', ok,
                   'yields the pending token and whitespace after the loop' if ok else
-                  'nothing is yielded after the loop: the last token of the input (not followed by another character '
-                  'class) is lost', construct='a3-lexer', line=f.node.lineno))
+                  ('nothing is yielded after the loop: the last token of the input (not followed by another character '
+                   'class) is lost' if ok is False else 'flush after the loop has a shape this rule does not model'),
+                  construct='a3-lexer', line=f.node.lineno))
     return obs
 
 
